@@ -3,6 +3,7 @@ package main
 import (
 	"go/constant"
 	"go/token"
+	"go/types"
 	"strings"
 
 	"golang.org/x/tools/go/ssa"
@@ -179,7 +180,10 @@ func runC19(c *Ctx) {
 			continue
 		}
 		c.Saw(callee)
-		suffix, ok := suffixHelper(w, callee)
+		suffix, sfxParam, ok := suffixHelper(w, callee)
+		if ok && sfxParam >= 0 {
+			suffix = "\x00param" + itoa(sfxParam)
+		}
 		key := shortFn(callee) + "|appends a constant suffix to every element"
 		if !ok {
 			c.Und("R3.principals", key, w.FnPos(callee), "helper is not of the form: for each p in input, append(out, p + CONST)")
@@ -203,6 +207,14 @@ func runC19(c *Ctx) {
 		OnCall: func(e *dtRun, call ssa.CallInstruction, args []absVal) (absVal, bool) {
 			if callee := call.Common().StaticCallee(); callee != nil {
 				if sfx, ok := helperTag[shortFn(callee)]; ok {
+					if strings.HasPrefix(sfx, "\x00param") {
+						// the suffix is the helper's own parameter: the constant passed at this call
+						pi := atoi(strings.TrimPrefix(sfx, "\x00param"))
+						if len(args) == 2 && pi < len(args) && args[pi].K == avStr && args[1-pi].K == avObject && args[1-pi].Obj == "prins" {
+							return absVal{K: avNonNil, Tag: "suffix" + args[pi].S}, true
+						}
+						return absVal{K: avUnknown, Tag: "helper on something else"}, true
+					}
 					if len(args) == 1 && args[0].K == avObject && args[0].Obj == "prins" {
 						return absVal{K: avNonNil, Tag: "suffix" + sfx}, true
 					}
@@ -275,9 +287,32 @@ type strVal string
 func (s strVal) String() string { return string(s) }
 
 // suffixHelper recognises `for _, p := range in { out = append(out, p+CONST) }; return out` and returns CONST.
-func suffixHelper(w *World, fn *ssa.Function) (string, bool) {
-	if len(fn.Params) != 1 {
-		return "", false
+// The suffix may also be the helper's second (string) parameter: then sfxParam is its index and the caller supplies
+// the constant.
+func suffixHelper(w *World, fn *ssa.Function) (suffixConst string, sfxParam int, okRes bool) {
+	s, p, ok := suffixHelper1(w, fn)
+	return s, p, ok
+}
+
+func suffixHelper1(w *World, fn *ssa.Function) (string, int, bool) {
+	sfxParam := -1
+	inParam := 0
+	switch len(fn.Params) {
+	case 1:
+	case 2:
+		// one []string and one string parameter
+		for i, p := range fn.Params {
+			if b, ok := p.Type().Underlying().(*types.Basic); ok && b.Kind() == types.String {
+				sfxParam = i
+			} else {
+				inParam = i
+			}
+		}
+		if sfxParam < 0 {
+			return "", -1, false
+		}
+	default:
+		return "", -1, false
 	}
 	var suffix string
 	nApp := 0
@@ -290,11 +325,11 @@ func suffixHelper(w *World, fn *ssa.Function) (string, bool) {
 		// appended element: slice of a 1-element array holding p+CONST
 		sl, ok := call.Common().Args[1].(*ssa.Slice)
 		if !ok {
-			return "", false
+			return "", -1, false
 		}
 		a, ok := sl.X.(*ssa.Alloc)
 		if !ok {
-			return "", false
+			return "", -1, false
 		}
 		var elem ssa.Value
 		for _, vs := range storesInto(a) {
@@ -302,24 +337,26 @@ func suffixHelper(w *World, fn *ssa.Function) (string, bool) {
 		}
 		bin, ok := elem.(*ssa.BinOp)
 		if !ok || bin.Op != token.ADD {
-			return "", false
+			return "", -1, false
 		}
 		k, ok := strConst(bin.Y)
 		if !ok {
-			return "", false
+			if sfxParam < 0 || bin.Y != ssa.Value(fn.Params[sfxParam]) {
+				return "", -1, false
+			}
 		}
 		ld, ok := bin.X.(*ssa.UnOp)
 		if !ok {
-			return "", false
+			return "", -1, false
 		}
 		ia, ok := ld.X.(*ssa.IndexAddr)
-		if !ok || ia.X != ssa.Value(fn.Params[0]) || !isForwardRangeIndex(ia.Index) {
-			return "", false
+		if !ok || ia.X != ssa.Value(fn.Params[inParam]) || !isForwardRangeIndex(ia.Index) {
+			return "", -1, false
 		}
 		suffix = k
 	}
 	if nApp != 1 {
-		return "", false
+		return "", -1, false
 	}
 	// the loop condition is the only branch: every element is appended
 	nIf := 0
@@ -331,16 +368,16 @@ func suffixHelper(w *World, fn *ssa.Function) (string, bool) {
 		}
 	}
 	if nIf != 1 {
-		return "", false
+		return "", -1, false
 	}
 	// returns the accumulated slice
 	for _, r := range liveReturns(fn) {
 		ex := w.Expr(r.Results[0])
 		if !strings.Contains(ex, "builtin:append") {
-			return "", false
+			return "", -1, false
 		}
 	}
-	return suffix, true
+	return suffix, sfxParam, true
 }
 
 // storesInto lists values stored into elements of a local array.
